@@ -10,6 +10,9 @@ type Sec struct {
 	// EmptyPtrRel: for a section without raw data, PointerToRawData = SizeOfHeaders + EmptyPtrRel
 	// (0 = pointer 0). The Authenticode algorithm ignores such sections whatever they point at.
 	EmptyPtrRel int
+	// Flags is the section's Characteristics word (0 = code | execute | read, 0x60000020). The
+	// Authenticode algorithm does not look at it: what is hashed is decided by SizeOfRawData alone.
+	Flags uint32
 }
 
 type Layout struct {
@@ -142,7 +145,11 @@ func Build(l Layout) []byte {
 		binary.LittleEndian.PutUint32(b[h+28:], 0) // PointerToLinenumbers
 		binary.LittleEndian.PutUint16(b[h+32:], 0)
 		binary.LittleEndian.PutUint16(b[h+34:], 0)
-		binary.LittleEndian.PutUint32(b[h+36:], 0x60000020)
+		fl := uint32(0x60000020)
+		if l.Secs[i].Flags != 0 {
+			fl = l.Secs[i].Flags
+		}
+		binary.LittleEndian.PutUint32(b[h+36:], fl)
 	}
 	// certificate entries
 	p := certOff
